@@ -12,8 +12,9 @@
       try:     load an_time ; load an_period
       except:  compute (get_position at epoch, branch on |z|, v_z)
                store an_time            (one of two branches: get_last_an_time(epoch) | epoch)
+               (node_shift: a thread-local value computed from the TLE only, in the same branch; silent)
                load an_time             (left operand of the subtraction)
-               load an_time             (argument of get_last_an_time(... - 10 min))
+               load an_time             (argument of get_last_an_time(... + node_shift - 10 min))
                store an_period
                load an_time ; load an_period
       result (pure arithmetic on the loaded values, the TLE and the arguments)
@@ -36,7 +37,8 @@ structure Sem (E A T P R : Type) where
   epoch  : E → T
   /-- `self.get_last_an_time(self.tle.epoch)` -/
   lastAn : E → T
-  /-- `t1 - self.get_last_an_time(t2 - 10 min)` for the two loaded values of `an_time` -/
+  /-- `(t1 + node_shift) - self.get_last_an_time(t2 + node_shift - 10 min)` for the two loaded values of `an_time`
+      (`node_shift` is computed from the TLE alone, in the branch that stores `an_time`) -/
   period : E → T → T → P
   /-- the arithmetic after the try/except, from the loaded `an_time`, `an_period` -/
   orbit  : E → A → T → P → R
